@@ -4,6 +4,7 @@
 //   progs = per-fiber operation strings separated by '.', e.g. "lu.tu.fu"
 //     l lock  u unlock  t try_lock  f try_lock_for(1ms)  s lock_shared  r unlock_shared  y try_lock_shared
 //     g try_lock_shared_for(1ms)  w cv.wait_for(1ms)  n notify_one  N notify_all  z sleep_for(1ms)  j spawn+join  x TLS check
+//     W cv.wait(predicate)  F predicate = true + notify_all
 // Operations a fiber may not legally perform in its current state (unlock of a lock it does not hold, re-locking a
 // non-recursive lock it owns, ...) are skipped.  Observations: {"k":"b","v":"<op>"} before and {"k":"e","v":"<op>:<result>"}
 // after every API call.
@@ -31,6 +32,7 @@ struct Locks {
   yaclib_std::shared_timed_mutex stm;
   yaclib_std::mutex cm;
   yaclib_std::condition_variable cv;
+  bool flag = false;  // the predicate of W, set by F under cm
 };
 
 struct Held {
@@ -148,6 +150,23 @@ void RunOps(vrt::Ctx&, const std::string& me, const std::string& prog, L& lock, 
         B(op);
         auto st = ls.cv.wait_for(guard, 1ms);
         E(op, st == std::cv_status::timeout ? "timeout" : "no_timeout");
+        break;
+      }
+      case 'W': {  // untimed wait with a predicate: never blocks forever when some fiber performs F
+        std::unique_lock guard{ls.cm};
+        B(op);
+        ls.cv.wait(guard, [&] {
+          return ls.flag;
+        });
+        E(op, "1");
+        break;
+      }
+      case 'F': {  // make the predicate true and wake everybody
+        std::unique_lock guard{ls.cm};
+        B(op);
+        ls.flag = true;
+        ls.cv.notify_all();
+        E(op, "1");
         break;
       }
       case 'n': {
